@@ -3,6 +3,8 @@ package dynbt
 import (
 	"errors"
 	"io"
+	"math"
+	"strconv"
 
 	"github.com/Tnze/go-mc/nbt"
 )
@@ -76,6 +78,9 @@ func writeTag(w io.Writer, tagType byte, tagName string) error {
 		return err
 	}
 	bName := []byte(tagName)
+	if len(bName) > math.MaxInt16 {
+		return errors.New("dynbt: tag name of " + strconv.Itoa(len(bName)) + " bytes does not fit the 16-bit length prefix")
+	}
 	if err := writeInt16(w, int16(len(bName))); err != nil {
 		return err
 	}
